@@ -67,6 +67,8 @@ Definition meta_stream_roundtrip_stmt : Prop :=
   forall payload final enc rest,
     (forall b, In b payload -> b < 256) -> (forall b, In b rest -> b < 256) ->
     meta_encode payload final = Some enc ->
+    (* the decoder model's loop budget (2^40 blocks; the Go loop has none) *)
+    N.of_nat (length enc) < 2 ^ 40 ->
     final <> FinalNil \/ rest = [] ->
     meta_decode (enc ++ rest) =
     mkMR None payload final (N.of_nat (length (writer_blocks payload []))) (N.of_nat (length enc)).
@@ -146,7 +148,9 @@ Definition xflate_roundtrip_stmt : Prop :=
     wrun deflate s0 (ops ++ [WClose]) = (obs, s) ->
     Forall (fun ob => snd ob = None \/ snd ob = Some EInvalid) obs ->
     snd (last obs (0, None)) = None ->
-    (Z.of_nat (length (w_sink s)) < 2 ^ 62)%Z ->
+    (* sizes within the int64 arithmetic of the index and the loop budget of the meta
+       decoder model *)
+    (Z.of_nat (length (w_sink s)) < 2 ^ 40)%Z ->
     (Z.of_nat (length (wops_data ops)) < 2 ^ 62)%Z ->
     honest_stream (w_sink s) (wops_data ops) = true.
 
